@@ -21,25 +21,52 @@ def _apply(scratch, patch):
     return r.returncode == 0
 
 
-def _run_on(pid, mod, scratch, qstage):
-    factdir, makefile, info = qstage.stage(scratch)
-    db = DB(factdir, makefile)
-    rep = Report(pid, 'quick')
-
-    class C:
-        pass
-    ctx = C()
-    ctx.db, ctx.report, ctx.tier, ctx.info, ctx.thorough = db, rep, 'quick', info, False
+def _run_on(pid, scratch):
+    """the property's quick check, as a separate process, on the scratch tree (no shared cache, evidence to a scratch dir)"""
+    import re, sys
+    evd = scratch + '.ev'
+    env = dict(os.environ, QV_NOCACHE='1', QV_EVIDENCE_DIR=evd, VERIF_TIER='quick')
     try:
-        mod.run(ctx)
-    except AnalysisBroken as e:
-        return 'broken', str(e), []
-    return ('violation' if rep.violations else 'clean'), '', sorted({v['key'] for v in rep.violations})
+        r = subprocess.run([sys.executable, os.path.join(VERIF, 'check'), pid, '--repo', scratch, '--tier', 'quick'], capture_output=True, text=True, env=env)
+    finally:
+        shutil.rmtree(evd, ignore_errors=True)
+    keys = sorted({'%s/%s' % m for m in re.findall(r'^  rule (\S+) \[\S+\] instance (\S+)', r.stdout, re.M)})
+    if r.returncode == 0:
+        return 'clean', '', []
+    if r.returncode == 1:
+        return 'violation', '', keys
+    why = ' '.join(re.findall(r'^ANALYSIS-BROKEN: (.*)', r.stdout, re.M))
+    if 'does not build' in why:
+        raise BuildFailed(why)
+    return 'broken', why, keys
+
+
+class BuildFailed(Exception):
+    pass
+
+
+def _one(pid, kind, want, name, patch, qstage):
+    scratch = tempfile.mkdtemp(prefix='qvctl.', dir=os.environ.get('TMPDIR', '/var/tmp'))
+    try:
+        files = qstage.list_sources(qstage.REPO)
+        qstage.copy_tree(qstage.REPO, files, scratch)
+        if not _apply(scratch, patch):
+            return kind, {'control': name, 'result': 'skipped (patch no longer applies to the current tree)'}, None
+        try:
+            got, why, keys = _run_on(pid, scratch)
+        except BuildFailed as e:
+            return kind, {'control': name, 'result': 'skipped (does not build: %s)' % str(e)[:80]}, None
+        ok = got == want
+        return kind, {'control': name, 'result': got, 'as_expected': ok, 'fired': keys[:4]}, (None if ok else '%s control %s: expected %s, got %s %s' % (kind, name, want, got, why[:100]))
+    finally:
+        shutil.rmtree(scratch, ignore_errors=True)
 
 
 def run_controls(pid, mod, rep, qstage):
+    from concurrent.futures import ThreadPoolExecutor
     res = {'seeded': [], 'neutral': []}
     wrong = []
+    jobs = []
     for kind, base, want in (('seeded', 'seeded', 'violation'), ('neutral', 'neutral', 'clean')):
         root = os.path.join(VERIF, base)
         if not os.path.isdir(root):
@@ -48,26 +75,13 @@ def run_controls(pid, mod, rep, qstage):
             if not name.startswith(pid + '-'):
                 continue
             patch = os.path.join(root, name, 'patch.diff')
-            if not os.path.exists(patch):
-                continue
-            scratch = tempfile.mkdtemp(prefix='qvctl.', dir=os.environ.get('TMPDIR', '/var/tmp'))
-            try:
-                files = qstage.list_sources(qstage.REPO)
-                qstage.copy_tree(qstage.REPO, files, scratch)
-                if not _apply(scratch, patch):
-                    res[kind].append({'control': name, 'result': 'skipped (patch no longer applies to the current tree)'})
-                    continue
-                try:
-                    got, why, keys = _run_on(pid, mod, scratch, qstage)
-                except qstage.BuildBroken as e:
-                    res[kind].append({'control': name, 'result': 'skipped (does not build: %s)' % str(e)[:80]})
-                    continue
-                ok = got == want or (kind == 'seeded' and got == 'violation')
-                res[kind].append({'control': name, 'result': got, 'as_expected': ok, 'fired': keys[:4]})
-                if not ok:
-                    wrong.append('%s control %s: expected %s, got %s %s' % (kind, name, want, got, why[:100]))
-            finally:
-                shutil.rmtree(scratch, ignore_errors=True)
+            if os.path.exists(patch):
+                jobs.append((kind, want, name, patch))
+    with ThreadPoolExecutor(int(os.environ.get('QV_CONTROL_JOBS', '4'))) as ex:
+        for kind, row, bad in ex.map(lambda j: _one(pid, j[0], j[1], j[2], j[3], qstage), jobs):
+            res[kind].append(row)
+            if bad:
+                wrong.append(bad)
     rep.notes['controls'] = res
     n_s = sum(1 for c in res['seeded'] if c.get('as_expected'))
     n_n = sum(1 for c in res['neutral'] if c.get('as_expected'))
